@@ -217,7 +217,7 @@ func minimise(env *check.Env, w *check.World, v *check.Violation, prop string) (
 			for ci := range calls {
 				for vi := range calls[ci].Values {
 					val := calls[ci].Values[vi]
-					if val.K != "s" || len(val.S) <= 1 {
+					if (val.K != "s" && val.K != "ds") || len(val.S) <= 1 {
 						continue
 					}
 					for _, cand := range shrinkBytes(val.S) {
